@@ -5,6 +5,7 @@
  * Every op prints `L1 | L2`: L1 is the observable answer (digest / MAC / derived key / CRC or
  * `ok`), L2 the public context structure after the op: state words, count, buf[0..r).
  */
+#define _DEFAULT_SOURCE 1
 #include <inttypes.h>
 #include <stdint.h>
 
@@ -142,6 +143,75 @@ aligned_copy(const uint8_t * src, size_t len, size_t align, uint8_t ** base)
 		memcpy((uint8_t *)b + align, src, len);
 	*base = b;
 	return ((uint8_t *)b + align);
+}
+
+/*
+ * `big <sha256|sha1|md5|crc> <n> <cut> <align>`: n bytes (n up to 2^32 + 2^20) of a fixed pseudo-random pattern
+ * are hashed (a) in ONE update call, (b) in two calls of cut and n - cut bytes, (c) in pieces of 2^20 - 1
+ * bytes.  The property says the results are the same for every partition; the answer is `same <n>` or the
+ * three values.  This reaches what no model run can: a single update of >= 2^29 bytes (the high word of
+ * the SHA-1/MD5 per-call bit length, the carry between the two count words) and of >= 2^32 bytes (CRC32C).
+ */
+#include <sys/mman.h>
+#include <unistd.h>
+#define BIGLIM (((size_t)1 << 32) + ((size_t)1 << 20))
+#define BIGMAX (BIGLIM + 128)
+static uint8_t * bigbuf;
+static size_t bigfilled;
+
+static uint8_t *
+big_data(size_t n)
+{
+	uint64_t x = 0x9e3779b97f4a7c15ULL + bigfilled;
+	size_t i;
+
+	if (bigbuf == NULL) {
+		bigbuf = mmap(NULL, BIGMAX, PROT_READ | PROT_WRITE, MAP_PRIVATE | MAP_ANONYMOUS | MAP_NORESERVE, -1, 0);
+		if (bigbuf == MAP_FAILED)
+			abort();
+	}
+	for (i = bigfilled & ~(size_t)7; i < n; i += 8) {
+		x = x * 6364136223846793005ULL + 1442695040888963407ULL;
+		memcpy(bigbuf + i, &x, 8);
+	}
+	if (n > bigfilled)
+		bigfilled = (n + 7) & ~(size_t)7;
+	return (bigbuf);
+}
+
+static void
+big_run(int a, const uint8_t * p, size_t n, size_t first, size_t piece, uint8_t out[32])
+{
+	SHA256_CTX s2; SHA1_CTX s1; MD5_CTX m5; CRC32C_CTX cc;
+	size_t pos = 0, l = first;
+
+	memset(out, 0, 32);
+	switch (a) {
+	case A_SHA256: SHA256_Init(&s2); break;
+	case A_SHA1: SHA1_Init(&s1); break;
+	case A_MD5: MD5_Init(&m5); break;
+	default: CRC32C_Init(&cc); break;
+	}
+	while (pos < n || (pos == 0 && n == 0)) {
+		if (l > n - pos)
+			l = n - pos;
+		switch (a) {
+		case A_SHA256: SHA256_Update(&s2, p + pos, l); break;
+		case A_SHA1: SHA1_Update(&s1, p + pos, l); break;
+		case A_MD5: MD5_Update(&m5, p + pos, l); break;
+		default: CRC32C_Update(&cc, p + pos, l); break;
+		}
+		pos += l;
+		l = piece;
+		if (n == 0)
+			break;
+	}
+	switch (a) {
+	case A_SHA256: SHA256_Final(out, &s2); break;
+	case A_SHA1: SHA1_Final(out, &s1); break;
+	case A_MD5: MD5_Final(out, &m5); break;
+	default: CRC32C_Final(out, &cc); break;
+	}
 }
 
 int
@@ -343,6 +413,28 @@ main(void)
 			hc_puthex(cbuf, 4);
 			printf(" | s=%08" PRIx32 " d=", crc.state);
 			hc_puthex(cbuf, 4);
+			HC_END();
+		} else if (hc_is("big", 4) && (strcmp(hc_tok[1], "crc") == 0 || alg_of(hc_tok[1]) != A_NONE)) {
+			uint8_t r1[32], r2[32], r3[32];
+			size_t n = (size_t)strtoull(hc_tok[2], NULL, 10);
+			size_t cut = (size_t)strtoull(hc_tok[3], NULL, 10);
+			size_t al = (size_t)strtoull(hc_tok[4], NULL, 10) & 15;
+
+			a = alg_of(hc_tok[1]);
+			if (n > BIGLIM || cut > n) { skip(); continue; }
+			p = big_data(n + al) + al;
+			alarm(900);		/* a single update that never returns is a failure, not a hang of the check */
+			big_run(a, p, n, n, n, r1);
+			big_run(a, p, n, cut, n - cut, r2);
+			big_run(a, p, n, ((size_t)1 << 20) - 1, ((size_t)1 << 20) - 1, r3);
+			alarm(0);
+			if (memcmp(r1, r2, 32) == 0 && memcmp(r1, r3, 32) == 0)
+				printf("same %zu", n);
+			else {
+				printf("differ one-call="); hc_puthex(r1, 32);
+				printf(" two-calls="); hc_puthex(r2, 32);
+				printf(" pieces="); hc_puthex(r3, 32);
+			}
 			HC_END();
 		} else {
 			printf("bad-op");
